@@ -81,7 +81,7 @@ def leafv(sel, i, s, b, bits, dn, de):
         return bytearray(hx.blist(hx.realize(s.encode("utf-8")), 0)) if False else bytearray([i % 256, 0xCE][: (i % 3)])
     if sel == 6:
         return DECIMALS[hx.realize(dn) % len(DECIMALS)]
-    return hx.dt(i % 2**32, 0, 0)
+    return hx.dt(i % 2**32 + de * 5400, dn * 99999, de * 5400)     # aware, utc offset 0 / 1.5 / 3 / 4.5 h
 '''
 
 TPLS = {'list1': '[l0]', 'dict1': 'hx.table([(k0, l0)])', 'dict_list': 'hx.table([(k0, [l0])])',
@@ -149,14 +149,16 @@ def partitions(tier, seed):
             p.family = 'enc_header'
             parts.append(p)
     # Basic.Properties.marshal() directly
-    parts.append(Part(name='enc_properties_marshal', params=[('prio', 'int'), ('dm', 'int'), ('ct', 'str'), ('ts', 'int')],
-                      pre=['0 <= prio <= 255', '1 <= dm <= 2', 'len(ct) <= 1', '0 <= ts < 2**32'],
-                      body='def body(prio, dm, ct, ts):\n'
-                           '    vals = dict(priority=prio, delivery_mode=dm, content_type=ct, timestamp=hx.dt(ts, 0, 0))\n'
+    parts.append(Part(name='enc_properties_marshal',
+                      params=[('prio', 'int'), ('dm', 'int'), ('ct', 'str'), ('ts', 'int'), ('us', 'int'), ('off', 'int')],
+                      pre=['0 <= prio <= 255', '1 <= dm <= 2', 'len(ct) <= 1', '0 <= ts < 2**32', '0 <= us < 1000000',
+                           '-50400 <= off <= 50400'],
+                      body='def body(prio, dm, ct, ts, us, off):\n'
+                           '    vals = dict(priority=prio, delivery_mode=dm, content_type=ct, timestamp=hx.dt(ts + off, us, off))\n'
                            '    got = commands.Basic.Properties(**vals).marshal()\n'
                            '    return same_bytes(got, ref.properties(spec.PROPERTIES, vals, epoch_of=epoch_of))\n',
-                      prelude=PRE, timeout=120, family='enc_header', bound='Basic.Properties.marshal() with 4 symbolic properties',
-                      rep={'prio': 0, 'dm': 1, 'ct': '', 'ts': 7}))
+                      prelude=PRE, timeout=120, family='enc_header', bound='Basic.Properties.marshal() with 4 symbolic properties (timestamp: any instant, microsecond, utc offset)',
+                      rep={'prio': 0, 'dm': 1, 'ct': '', 'ts': 7, 'us': 5, 'off': -3600}, tz_replay=True))
     for n in range(1, 9 if q else 17):
         parts.append(Part(name='enc_body_%d' % n, params=[('ch', 'int'), ('content', 'bytes')],
                           pre=['0 <= ch <= 65535', 'len(content) == %d' % n],
